@@ -470,6 +470,12 @@ def _equivalence(ctx, P):
         (([[(A, "center")]], [[(A, "left")]]), ([[(C, "center")]], [[(C, "left")]])),
         (([[(A, "center")], [(B, "left")]], [[(B, "center")]]), ([[(C, "center")], [(D, "left")]], [[(C, "center")]])),  # output refers to the other input
         (([[(A, "center")]], [[(A, "left")]]), ([[(C, "center")]], [[(C, "left")], [(C, "left")]])),  # different number of outputs
+        # names that occur on the output side only (new output axes), two of them: consistently renamed / exchanged / merged
+        (([[(A, "center")]], [[(B, "left"), (C, "left")]]), ([[(D, "center")]], [[(A, "left"), (B, "left")]])),
+        (([[(A, "center")]], [[(B, "left"), (C, "left")]]), ([[(D, "center")]], [[(B, "left"), (A, "left")]])),
+        (([[(A, "center")]], [[(B, "left"), (C, "left")]]), ([[(A, "center")]], [[(C, "left"), (B, "left")]])),
+        (([[(A, "center")]], [[(B, "left"), (C, "left")]]), ([[(D, "center")]], [[(A, "left"), (A, "left")]])),
+        (([[(A, "center")]], [[(B, "left")], [(C, "left")]]), ([[(D, "center")]], [[(C, "left")], [(A, "left")]])),
     ]
 
     def obj(sig, tag):
